@@ -23,6 +23,10 @@ CHECKS = {
   text="Bounded symbolic model checking of scan_orfs on windows of concrete length <= 10 (quick) / 12 (thorough) whose every base is symbolic over {A,C,G,T,N,a,t,g}, both directions, symbolic offset (incl. negative: windows crossing the origin), record length and minimum length, against an independent reference scanner written as formulas over the codon predicates: every reported location is a real ORF and, extracted on its strand in part order, visits exactly the ORF's bases in reading order (for all positions t); every ORF is reported; and of find_intergenic_areas on <= 3 genes (nested/overlapping) with symbolic coordinates, padding and minimum length.",
   note="'At least the minimum length' is read as pinned by the repository's own test (last base - first base >= minimum). find_all_orfs glue (slicing a real Seq) and translation text are outside the claim; record length > window length.",
   ref="3/C15"),
+ "C19": dict(
+  text="Bounded symbolic model checking of build_area_rows / pack / Row / adjust_cross_origin_area / Area on regions built by the real formation code from <= 2 protoclusters (core inside extent, extent and optionally core spanning the origin) and an optional subregion with symbolic coordinates and record length (linear, circular, origin-spanning and whole-record regions): every protocluster / shown candidate / subregion is drawn once or as two halves with the same group; same-row areas do not overlap; every extent lies in the announced range; a protocluster's core lies inside its extent; and for every genome position x the drawn extent and core, in drawing coordinates (positions after the origin shifted by the record length), are exactly the feature's extent and core.",
+  note="Genes (convert_cds_features) need the HTML description builders and are not explored; set iteration order pinned to hash(product); more than 2 protoclusters / 1 subregion outside the claim.",
+  ref="3/C19"),
  "C01": dict(
   text="Bounded symbolic model checking of the real rule evaluator (DetectionRule.detect and every Conditions subclass) on condition trees parsed from text by the real Parser: for each enumerated tree (22 quick / ~150 thorough; not/and/or/groups/cds/minimum/minscore over 2 profiles) the evaluation at a gene with 2 neighbours is executed on symbolic gene coordinates, cutoff, record length, hit presence (booleans) and bitscores (reals), and z3 must answer unsat for path /\\ not(documented formula) for met, the reason profiles and the anchoring decision; distance-at-cutoff and across-origin cases are solver-chosen.",
   note="Trees are enumerated (the programs axis is sampled, inputs are symbolic). Details.in_range is explored as a function summary (same code). 3 genes, 2 profiles; minscore inside cds() is outside the documented grammar and not claimed.",
